@@ -49,6 +49,13 @@ type c18Checked struct {
 	Age  int    `json:"age" form:"age" query:"age" xml:"age" validate:"min:1"`
 }
 
+// the outer type carries no rule tags: they are on the nested struct
+type c18Nested struct {
+	Title string       `json:"title"`
+	Inner c18Checked   `json:"inner"`
+	List  []c18Checked `json:"list"`
+}
+
 // no validate / filter tags: the rules are the application's own validator's (c18OwnValidator)
 type c18Untagged struct {
 	Name string `json:"name" form:"name" query:"name" xml:"name"`
@@ -142,7 +149,7 @@ func c18Gen(r *Rng, tier string, i int) Sx {
 		} else {
 			toggles += "d"
 		}
-		return L(A("val"), B(enabled), B(r.Bool()), A(r.Pick([]string{"json", "xml", "form", "query", "multipart"})), A("t"+toggles), A(r.Pick([]string{"plain", "plain", "samename", "custom", "config"})))
+		return L(A("val"), B(enabled), B(r.Bool()), A(r.Pick([]string{"json", "xml", "form", "query", "multipart"})), A("t"+toggles), A(r.Pick([]string{"plain", "plain", "samename", "custom", "config", "nested"})))
 	}
 }
 
@@ -407,6 +414,17 @@ func c18Exec(c Sx) (out Sx) {
 			req.Header.Set("Content-Type", ct)
 		default:
 			req = httptest.NewRequest("GET", "/x?"+vs.Encode(), nil)
+		}
+		if len(c.List) > 5 && c.List[5].Atom == "nested" {
+			// the rules sit on a nested struct only (the outer type has no rule tag of its own); sent as JSON
+			body, _ := json.Marshal(map[string]any{"title": "t", "inner": map[string]any{"name": v.Name, "age": v.Age}, "list": []map[string]any{{"name": "okname", "age": 3}}})
+			jr := httptest.NewRequest("POST", "/x", bytes.NewReader(body))
+			jr.Header.Set("Content-Type", "application/json")
+			var got c18Nested
+			if err := c18Auto(jr, &got, len(c.String())); err != nil {
+				return L(A("val"), A("err"))
+			}
+			return L(A("val"), A("ok"))
 		}
 		if len(c.List) > 5 && (c.List[5].Atom == "custom" || c.List[5].Atom == "config") {
 			// the rules do not come from struct tags: a validator of the application's own installed in binding.Validator
